@@ -1,4 +1,5 @@
 import BoltonsVerif.C09.Proofs
+import BoltonsVerif.C09.KeyModel
 import BoltonsVerif.Generated.C09_SepKinds
 /-
 C09 — property theorems for the chunking / windowing / splitting / stripping / grouping helpers of
@@ -423,6 +424,74 @@ theorem unique_attr_missing (self : α → κ) (g : α → Option κ) (src : Lis
 example : unique (keyFunc (fun x => x) (.attr fun x => if x < 3 then some 0 else none)) [1, 2, 5, 5, 6] = [1, 5, 6] := by
   decide
 example : ∀ x ∈ [5, 6, 5], (fun x : Nat => if x < 3 then some 0 else none) x = none := by decide
+
+/-! ## round 3b: which Python OBJECT passed as `key` takes which branch of the key dispatch -/
+
+/-- one row of the regenerated table agrees with the branch the model computes for that function and kind.
+    Where the model says TypeError the key object is not a valid `key` for that function: the statement
+    quantifies over valid parameters, so the source may do anything there (reject it as today, or accept it in a
+    later version - `bucketize(src, key=None)` as the identity key, say) and the row is not constrained. -/
+def keyRowOk (r : String × String × String) : Bool :=
+  match keyBranchOf r.1, KeyKind.ofName? r.2.1 with
+  | some br, some k => decide (br k.facts = .typeError) || r.2.2 == (br k.facts).name
+  | _, _ => false
+
+/-- SOURCE FACTS, re-established from the current `boltons/iterutils.py` on every run (the table is regenerated
+    by calling the live `unique_iter` / `redundant` / `bucketize` with a sample key object of every kind on the
+    items 1, 2, 3 and reading off which keys were used): every function takes, for every kind of key object, the
+    branch the model's dispatch computes (for the kinds that are valid keys of that function; what the source
+    does with an invalid one is left open) - `None` is the identity key for unique / redundant (today a TypeError
+    for bucketize); every kind of callable (function, partial, `__call__` instance, bound method, class, and an
+    instance whose truth value is False) is called; a str names an attribute; a list is per-item keys for
+    bucketize only.  Every (function, kind) pair is in the table, except redundant with a falsy callable while
+    that region is a known finding (C09-redundant-falsy-key; the row is back as soon as it is fixed). -/
+theorem key_kind_table_agrees :
+    Generated.keyKindTable.all keyRowOk = true ∧
+    (["unique", "redundant", "bucketize"].all fun fn => KeyKind.all.all fun k =>
+      (fn == "redundant" && decide (k = .falsyCallable)) ||
+        Generated.keyKindTable.any (fun r => r.1 == fn && KeyKind.ofName? r.2.1 == some k)) = true := by decide
+
+/-- `KeyKind.all` really lists every kind -/
+theorem keyKind_all_complete (k : KeyKind) : k ∈ KeyKind.all := by cases k <;> decide
+
+/-- EVERY kind of callable - also one whose truth value is False - is called, by all three functions -/
+theorem key_callable_kinds_call (k : KeyKind) (hk : k.facts.callable = true) :
+    uniqueKeyBranch k.facts = .call ∧ redundantKeyBranch k.facts = .call ∧ bucketizeKeyBranch k.facts = .call := by
+  cases k <;> first | exact ⟨rfl, rfl, rfl⟩ | exact absurd hk (by decide)
+
+/-- no branch depends on the truth value of the key object (the repaired `redundant` asks `key is not None`) -/
+theorem key_branch_ignores_truthiness (f : KeyFacts) (b : Bool) :
+    uniqueKeyBranch { f with truthy := b } = uniqueKeyBranch f ∧
+    redundantKeyBranch { f with truthy := b } = redundantKeyBranch f ∧
+    bucketizeKeyBranch { f with truthy := b } = bucketizeKeyBranch f := ⟨rfl, rfl, rfl⟩
+
+/-- the other kinds: `None` is the identity key for unique / redundant but not a key for bucketize, a str names
+    an attribute everywhere, a list is per-item keys for bucketize only, anything else is a TypeError -/
+theorem key_other_kinds :
+    uniqueKeyBranch KeyKind.none.facts = .identity ∧ redundantKeyBranch KeyKind.none.facts = .identity ∧
+    bucketizeKeyBranch KeyKind.none.facts = .typeError ∧
+    uniqueKeyBranch KeyKind.attrName.facts = .attr ∧ redundantKeyBranch KeyKind.attrName.facts = .attr ∧
+    bucketizeKeyBranch KeyKind.attrName.facts = .attr ∧
+    uniqueKeyBranch KeyKind.keyList.facts = .typeError ∧ redundantKeyBranch KeyKind.keyList.facts = .typeError ∧
+    bucketizeKeyBranch KeyKind.keyList.facts = .perItem ∧
+    uniqueKeyBranch KeyKind.number.facts = .typeError ∧ redundantKeyBranch KeyKind.number.facts = .typeError ∧
+    bucketizeKeyBranch KeyKind.number.facts = .typeError := by decide
+
+/-- so `redundant` (and `unique`, `bucketize`) with a callable key object of ANY kind is the function applied to
+    what the object computes: in particular a falsy callable is not mistaken for "no key" -/
+theorem redundant_callable_key (k : KeyKind) (hk : k.facts.callable = true) (self f : α → κ) (g : α → Option κ)
+    (src : List α) :
+    (keyArgOf (redundantKeyBranch k.facts) f g).map (fun ka => redundant (keyFunc self ka) src)
+      = some (redundant f src) ∧
+    (keyArgOf (uniqueKeyBranch k.facts) f g).map (fun ka => unique (keyFunc self ka) src)
+      = some (unique f src) := by
+  obtain ⟨h1, h2, _⟩ := key_callable_kinds_call k hk
+  rw [h1, h2]
+  exact ⟨rfl, rfl⟩
+
+example : KeyKind.falsyCallable.facts.callable = true ∧ KeyKind.falsyCallable.facts.truthy = false := by decide
+example : (keyArgOf (redundantKeyBranch KeyKind.falsyCallable.facts) (fun x : Nat => x % 2) (fun _ => none)).map
+    (fun ka => redundant (keyFunc (fun x => x) ka) [1, 3, 2]) = some [3] := by decide
 
 /-! ## redundant -/
 
